@@ -111,7 +111,9 @@ var zHostileBases = []string{"A.go", "C.go", "K.go", "k.go", "ẞ.txt", "SS.txt"
 	"con", "CON", "con.txt", "Con.tar.gz", "aux", "nul", "NUL.go", "com1", "COM9.x", "lpt1", "LPT0", "COM0", "prn", "PRN.a.b",
 	"tr.", "...", "trail ", "q?.go", "st*r", "a:b", "x\\y", "qu\"ote", "pi|pe", "<lt", ">gt", "`bt", "'sq", "semi;colon",
 	"foo~1.txt", "foo~1", "~1", "a..b", "..a", "emoji😀", "digit٣", "ⅷ", "\xff", "bad\xc3", "nul\x00x", "tab\tx", "nl\nx", "del\x7f", "\ufffd",
-	"²", "x\u200bx", "x\u00a0x"}
+	"²", "x\u200bx", "x\u00a0x",
+	// non-letter runes whose low byte is an allowed ASCII byte
+	"inv\u202efdp.exe", "a\u2028b", "p\u2029q", "\u2025", "x\u0323", "at\uff20", "dag\u2020", "f\u2061x", "e\u212e", "per\u2030", "int\u203d", "sp\u3000ace", "m\u205fs"}
 var zWholePaths = []string{"", ".", "..", "../up", "a/", "/", "dir/", "a/./b", "../../x", "/go.mod", "./go.mod", "sub/../go.mod", "sub//go.mod"}
 
 // zModes for files that are not regular.
